@@ -321,6 +321,7 @@ def obligations(ctx: Ctx):
         from props import framesobs as _FO
 
         obs.append(Ob(f"{P}.F3.state", "F", "the verdict is a function of the call: the validator's closure writes no process state (module objects, memoised mutable objects) that a later call could read", ["octave_mcp.core.validator:Validator.validate"], _FO.ob_no_effects(["octave_mcp.core.validator:Validator.validate"], ("global_write",))))
+        obs.append(Ob(f"{P}.F3.tool", "F", "a status is decided by THIS call: the four tool objects carry nothing from one call to the next (no method in the closure of execute stores through self)", [f"{V[0]}:{V[1]}", f"{W[0]}:{W[1]}", f"{J[0]}:{J[1]}", f"{G[0]}:{G[1]}"], _FO.ob_tool_stateless(("validate", "write", "eject", "compile_grammar"))))
         obs.append(Ob(f"{P}.F3.memo", "F", "memoised functions in the validator's closure are keyed by arguments whose equality implies they are indistinguishable", ["octave_mcp.core.validator:Validator.validate"], _FO.ob_memo_keys(["octave_mcp.core.validator:Validator.validate"])))
         obs.append(Ob(f"{P}.B1", "B", "contents x schema arguments x profiles x flag combinations on the four real tools; VALIDATED canonicals re-validate", [f"{V[0]}:{V[1]}", f"{W[0]}:{W[1]}", f"{J[0]}:{J[1]}", f"{G[0]}:{G[1]}"], C10_b.ob_b1, timeout=3000))
         obs.append(Ob(f"{P}.B2", "B", "the CLI's `octave validate`: a VALIDATED claim is backed by the tool on the same input and on the printed canonical text", [f"{V[0]}:{V[1]}", f"{W[0]}:{W[1]}", f"{J[0]}:{J[1]}", f"{G[0]}:{G[1]}"], C10_b.ob_b2, timeout=3000))
